@@ -4,7 +4,7 @@ from harness.props import c01 as B
 
 ID = "C03"
 ENTRY = "SearchArray.termfreqs(list[str]) with slop=0"
-LEVEL = "other"
+LEVEL = "proof"
 RULE = ("corpora over small vocabularies with the phrase planted at every offset 0..60 relative to the 18-position "
         "word boundaries, near-miss documents (one term altered, the two halves apart, reversed), and the rarest "
         "posting list forced to every index of the phrase (so left-to-right, right-to-left and middle-out are all "
